@@ -114,7 +114,7 @@ def _run(pid, tier):
     rep.assumptions = [
         "reference semantics = spec/Msg.tla (documented guards + Python list semantics); argument tokens are mapped to "
         "concrete Python objects by vf/msgleg.py (max/min of the field's type, str, float, None, bytes, bool excluded)",
-        "eight curated schemas covering every field kind; where the documents are silent the model allows both outcomes "
+        "eleven curated schemas covering every field kind; where the documents are silent the model allows both outcomes "
         "(re-enabling a present optional composite; bad value AND bad index; extended slice of another size)",
         "states of the reference model are rebuilt through the public API for the per-edge leg; the history leg keeps "
         "one live pair of messages per walk"]
